@@ -21,7 +21,10 @@ RULE = (
 )
 RULE += (
     " Lazy-constant histories also contain 'race' steps: a sibling task calls dirty() while the refresh is "
-    "suspended on a batch item (the next call must recompute)."
+    "suspended on a batch item (the next call must recompute). Per-instance histories also ask for the same "
+    "key twice in one yield (both bodies run, each call gets its own result) and for two keys of which one "
+    "body raises; lru_method histories drop instances and create them anew; lazy-constant histories contain a "
+    "second race (a refresh overtaken by dirty() finishing after the recomputation)."
 )
 ASSUMPTIONS = [
     "calls of one history are sequential (each completes before the next), except the explicit steps that put several calls in flight at once (two keys on the per-instance cache; 2-5 calls incl. repeated keys on the LRU caches, where the model stores results in the observed completion order)",
